@@ -587,3 +587,21 @@ def _(self, other: Obj("Encoder")) -> Obj("Encoder"):
     ensures(result is self)
     ensures(self.chunks_number_of_bits + self.number_of_bits
             == old(self.chunks_number_of_bits) + old(self.number_of_bits) + other.chunks_number_of_bits + other.number_of_bits)
+
+
+@contract("Boolean.encode", props=["C05", "C01"])
+def _(self, data: Bool, encoder: Obj("Encoder")):
+    refines("Type.encode")
+    # X.691 12: one bit, 1 for TRUE
+    ensures(encoder.number_of_bits == old(encoder.number_of_bits) + 1
+            and encoder.value == 2 * old(encoder.value) + (1 if data else 0)
+            and encoder.chunks_number_of_bits == old(encoder.chunks_number_of_bits))
+
+
+@contract("Boolean.decode", props=["C05", "C01", "C16", "C08"])
+def _(self, decoder: Obj("Decoder")) -> Bool:
+    refines("Type.decode")
+    raises_iff(OutOfDataError, decoder.number_of_bits == 0)
+    ensures(decoder.number_of_bits == old(decoder.number_of_bits) - 1)
+    ensures(result == (bits_val(decoder.value[decoder.total_number_of_bits - old(decoder.number_of_bits):
+                                               decoder.total_number_of_bits - old(decoder.number_of_bits) + 1]) != 0))
